@@ -2173,7 +2173,10 @@ namespace adept {
     }
     bool is_column_contiguous() const {
       ADEPT_STATIC_ASSERT(Rank == 2, CANNOT_CHECK_COLUMN_CONTIGUOUS_IF_NOT_MATRIX);
-      return offset_[0] == 1;
+      // As is_row_contiguous: the columns must also be separated by
+      // at least their length, and increasing in memory, to be a
+      // valid leading dimension for BLAS
+      return offset_[0] == 1 && offset_[1] >= dimensions_[0];
     }
 
   public:
